@@ -219,6 +219,10 @@ func chainSyncSetup(s *rt.Sim, tier string) func() {
 			return
 		}
 		cw, sw := watchConn(cConn), watchConn(sConn)
+		kaStop := false
+		if !ntn {
+			connKeepAlive(&kaStop, cConn, sConn) // node-to-node runs the real keep-alive protocol
+		}
 		if err := cConn.ChainSync().Client.Sync([]pcommon.Point{samplePoint(0)}); err != nil {
 			if pair.A.Deadline+pair.B.Deadline == 0 {
 				rt.Violate("C21/sync-failed", "Sync returned %v (client errors %v, server errors %v)", err, cw.errs, sw.errs)
